@@ -832,6 +832,11 @@ def size_rules_for(chk, db, fn, k, R, winfo):
         view = io_view(full)
         lens = [it for it in view if it[0] == 'SIZE' and it[1] == SIZETYPE]
         wl = winfo.get('len') if winfo else None
+        if len(lens) > 1 and wl is not None:
+            # elements may themselves be SizeType values: the length field is the one sized for the writer's length expression
+            exact = [it for it in lens if symx.as_poly(it[3][0]) == wl and not it[5].in_loop]
+            if exact:
+                lens = exact[:1]
         if len(lens) != 1:
             why.append('counts %d length fields, the writer emits one' % len(lens))
         elif wl is not None and symx.as_poly(lens[0][3][0]) != wl:
